@@ -426,7 +426,12 @@ class Bip32Path(object):
         :return: number
         """
         if str_int[-1] in ("'", "h"):
-            return int(str_int[:-1]) + (2 ** 31)
+            num = int(str_int[:-1])
+            if not 0 <= num < 2 ** 31:
+                raise ValueError(
+                    "hardened index has to be between 0 and 2**31 - 1"
+                )
+            return num + (2 ** 31)
         return int(str_int)
 
     def repr_hardened(self, num: int) -> str:
